@@ -80,6 +80,13 @@ class FuncRun(ExprMixin, InstrMixin, CallMixin):
         c = self.cfgs.get(fn['name'])
         if c is None:
             c = CFG(fn)
+            from .baseline import loop_alignment
+            al = loop_alignment(fn)
+            if al:
+                # the function gained or lost loops: `loop k` keeps meaning the loop it meant when the contract was written
+                c.loop_no = {h: al.get(h, c.loop_no[h]) for h in c.loop_no}
+                self.renamed_used.add('%s: loops re-numbered to their baseline ordinals %s' % (
+                    fn['name'].rsplit('/', 1)[-1], sorted(c.loop_no.values())))
             self.cfgs[fn['name']] = c
         return c
 
@@ -733,17 +740,20 @@ class FuncRun(ExprMixin, InstrMixin, CallMixin):
         if cur is None:
             cur = cache[fn['name']] = loop_shapes(fn)
         bl = base['loops']
-        if len(bl) != len(cur) or all(b.get('kind') == c.get('kind') and b.get('ri') == c.get('ri') for b, c in zip(bl, cur)):
-            return
         cfg = ctx['cfg']
         frame = ctx['frame']
-        headers = sorted(cfg.loops, key=lambda h_: cfg.loop_no[h_])
-        if len(headers) != len(cur):
+        pairs = []
+        for c in cur:
+            h = c.get('hdr')
+            n = cfg.loop_no.get(h)
+            if n is not None and 1 <= n <= len(bl):
+                pairs.append((n - 1, h, bl[n - 1], c))
+        pairs.sort(key=lambda x: x[0])
+        if len(bl) == len(cur) and all(b.get('kind') == c.get('kind') and b.get('ri') == c.get('ri') for _, _, b, c in pairs):
             return
         derived = {}
         was_range = []
-        for n, (b, c) in enumerate(zip(bl, cur)):
-            h = headers[n]
+        for n, h, b, c in pairs:
             inside = at_block is not None and at_block in cfg.loops[h]
             if b.get('ri'):
                 nm = 'rangeindex#%d' % b['ri']
